@@ -28,9 +28,11 @@ RULE = (
 def floors(ctx):
     if ctx.tier == "quick":
         return {"rows_single_link": 400, "evaluations": 5000, "unlink_sweeps": 200, "count_relation_checked": 2000,
-                "pairs_checked_with_warm_cache": 2000, "unlink_sweeps_with_warm_cache": 50}
+                "pairs_checked_with_warm_cache": 2000, "unlink_sweeps_with_warm_cache": 50,
+                "returned_sets_mutated_by_the_caller": 2000}
     return {"rows_single_link": 400, "evaluations": 50000, "unlink_sweeps": 2000, "count_relation_checked": 20000,
-            "pairs_checked_with_warm_cache": 20000, "unlink_sweeps_with_warm_cache": 500}
+            "pairs_checked_with_warm_cache": 20000, "unlink_sweeps_with_warm_cache": 500,
+            "returned_sets_mutated_by_the_caller": 20000}
 
 
 def _nb_filter(g1):
@@ -136,6 +138,12 @@ def check_pair(ctx, g, ai, bi, ds, uname, fname, rows=None, _shrinking=False):
                     {"kind": "pair", "spec": g.spec, "a": ai, "b": bi, "ds": ds, "unk": uname, "filt": fname},
                 )
                 return False
+    if got[0] == "ok" and isinstance(got[1], set) and not _shrinking:
+        # the result belongs to the caller, who goes on to use it (acc = find_links(d, b); acc |= find_links(a, b)):
+        # every later answer must be computed afresh, whatever became of this set
+        got[1].update(l for v in g.verts for l in v.links)
+        got[1].add("not a link")
+        ctx.count("returned_sets_mutated_by_the_caller")
     return True
 
 
